@@ -9,6 +9,12 @@ sys.path.insert(0, os.path.join(VERIF, "tool"))
 import compdb  # noqa: E402
 from compdb import BrokenAnalysis  # noqa: E402
 
+
+class BudgetExceeded(BaseException):
+    """The whole check ran out of its time budget: never caught by a rule (a rule that catches BrokenAnalysis to go on with its
+    next scenario must not swallow this)."""
+
+
 MTBLX = os.path.join(VERIF, "tool", "mtblx")
 FACTS_ROOT = os.path.join(VERIF, ".facts")
 
